@@ -507,23 +507,32 @@ def lattice_cases(tier):
 
 
 
-def emit_dcase(ep, spec, ku, ignore_invalid, dname, mname, oname):
-    cls = "{| vc_fields := %s; vc_required := %s; vc_additional := %s |}" % (
+SCALAR_KINDS = ("Integer", "String", "Float", "Boolean")
+
+
+def trusted_eligible(spec):
+    """Every declared field is a scalar typedpy field (the class's own `version` is a PositiveInt): the class is
+    one that _structure_simplicity_level accepts for direct_trusted_mapping."""
+    return all(kind in SCALAR_KINDS for _, kind in spec["fields"])
+
+
+def emit_dcase(ep, spec, ku, trusted, ignore_invalid, dname, mname, oname):
+    cls = "{| vc_fields := %s; vc_required := %s; vc_additional := %s; vc_trusted_eligible := %s |}" % (
         E.lst([E.pstr(k) for k, _ in spec["fields"]]), E.lst([E.pstr(k) for k in spec["required"]]),
-        E.opt(spec["additional"], E.blit))
-    opts = "{| o_keep_undefined := %s; o_additional_default := true; o_ignore_invalid_additional := %s |}" % (
-        E.opt(ku, E.blit), E.blit(ignore_invalid))
+        E.opt(spec["additional"], E.blit), E.blit(trusted_eligible(spec)))
+    opts = ("{| o_keep_undefined := %s; o_trusted := %s; o_additional_default := true; "
+            "o_ignore_invalid_additional := %s |}" % (E.opt(ku, E.blit), E.blit(trusted), E.blit(ignore_invalid)))
     return "(%s, %s, %s, %s, %s, %s)" % (
         "EDeserializer" if ep == "Deserializer" else "EDeserializeStructure", cls, opts, dname, mname, oname)
 
 
-def observe_state(classes, ep, ku, ignore_invalid, doc):
+def observe_state(classes, ep, ku, trusted, ignore_invalid, doc):
     """Public state of the instance built from `doc` (declared fields and extra attributes)."""
     from typedpy.structures import TypedPyDefaults
     saved = TypedPyDefaults.ignore_invalid_additional_properties_in_deserialization
     TypedPyDefaults.ignore_invalid_additional_properties_in_deserialization = ignore_invalid
     try:
-        r, _ = D.run_one(classes, (ep, ku, False, False), copy.deepcopy(doc))
+        r, _ = D.run_one(classes, (ep, ku, trusted, False), copy.deepcopy(doc))
     finally:
         TypedPyDefaults.ignore_invalid_additional_properties_in_deserialization = saved
     if r[0] == "raise":
@@ -548,12 +557,12 @@ def coq_shards(cases, observed, dcases, per=220):
             citems.append("(d%d, m%d, %s)" % (ci, ci, E.outcome(o)))
             seen = {}
             for di in dcases.get(ci, []):
-                _, spec_any, ep, ku, ign, ob = DMETA[di]
+                _, spec_any, ep, ku, tr, ign, ob = DMETA[di]
                 txt = E.outcome(ob)
                 if txt not in seen:
                     seen[txt] = "o%d_%d" % (ci, len(seen))
                     defs.append("Definition %s : res pyval := %s." % (seen[txt], txt))
-                ditems.append(emit_dcase(ep, spec_any, ku, ign, "d%d" % ci, "m%d" % ci, seen[txt]))
+                ditems.append(emit_dcase(ep, spec_any, ku, tr, ign, "d%d" % ci, "m%d" % ci, seen[txt]))
                 didx.append(di)
         body = "\n".join(defs) + "\n"
         body += "Definition cases : list case := %s.\n" % E.lst(["\n " + i for i in citems])
@@ -600,7 +609,7 @@ def run_deser_jobs(cases, jobs):
 
 def run(rep, tier):
     rnd = random.Random(core.seed() * 1000003 + 17)
-    ncases = 700 if tier == "quick" else 8000
+    ncases = 600 if tier == "quick" else 8000
     proofs_ok, model_ok = core.standard_proof_obligations(
         rep, "C17", ["theories/Check/C17chk.vo", "theories/Ser/VersionedProofs.vo"])
     rep.assumptions += [
@@ -670,23 +679,32 @@ def run(rep, tier):
             specs, stream = [D.gen_spec(rnd, doc, latest)], "versioned-deser"
         for spec in specs:
             jobs.append((ci, stream, spec, tagspec == "lattice"))
-        # ---- deser-state correspondence cases (model of deserialize_structure_internal, Anything fields)
+        # ---- deser-state correspondence cases (model of deserialize_structure_internal: Anything fields, or
+        #      all-scalar typed fields = eligible for the trusted branch)
         if stream == "versioned-deser" and model_ok:
-            spec_any = dict(specs[0], fields=[[k, "any"] for k, _ in specs[0]["fields"]])
+            sp = specs[0]
+            spec_any = sp if (sp["fields"] and trusted_eligible(sp)) else \
+                dict(sp, fields=[[k, "any"] for k, _ in sp["fields"]])
+            spec_any = {k: v for k, v in spec_any.items() if k != "defaults"}
             try:
                 classes = D.build_classes(spec_any, [realize_mapping(m, FUNCS()) for m in maps])
             except Exception:  # noqa
                 classes = None
             if classes is not None:
                 ign = rnd.random() >= 0.2
+                elig = trusted_eligible(spec_any)
+                trs = (False, True) if (elig or rnd.random() < 0.25) else (False,)
                 for ep in ("Deserializer", "deserialize_structure"):
                     for ku in D.KEEP:
-                        o = observe_state(classes, ep, ku, ign, doc)
-                        rep.stat("deser-state", "outcome:" + (o[0] if o[0] == "ok" else "raise:" + o[1]))
-                        dcases.setdefault(ci, []).append(len(DMETA))
-                        DMETA.append((ci, spec_any, ep, ku, ign, o))
-                        rep.count("deser-state", 1, (ep, ku, ign, spec_any["additional"], o[0],
-                                                     len(spec_any["fields"]), len(maps)))
+                        for tr in trs:
+                            o = observe_state(classes, ep, ku, tr, ign, doc)
+                            rep.stat("deser-state", "outcome:" + (o[0] if o[0] == "ok" else "raise:" + o[1]))
+                            if tr and elig:
+                                rep.stat("deser-state", "trusted-branch")
+                            dcases.setdefault(ci, []).append(len(DMETA))
+                            DMETA.append((ci, spec_any, ep, ku, tr, ign, o))
+                            rep.count("deser-state", 1, (ep, ku, tr and elig, ign, spec_any["additional"], o[0],
+                                                         len(spec_any["fields"]), len(maps)))
     # ---- the deserialization clauses (independent per job: run in worker processes, reported in order)
     for (ci, stream, spec, is_lat), (fails, ran3, stats) in zip(jobs, run_deser_jobs(cases, jobs)):
         doc, maps, _ = cases[ci]
@@ -758,12 +776,13 @@ def run(rep, tier):
             rep.obligation("correspondence:convert_dict:explained-by-violation", True,
                            "mismatching cases accompany a concrete violation reported above")
         if dm and not rep.violations:
-            ci, spec_any, ep, ku, ign, o = DMETA[dm[0]]
+            ci, spec_any, ep, ku, tr, ign, o = DMETA[dm[0]]
             rep.broken("correspondence:deser-state",
                        f"model (Ser/VersionedDeser.v) and typedpy's deserialization of a Versioned class differ on "
                        f"{len(dm)} generated cases; no clause of C17 failed on any explored input",
                        {"doc": cases[ci][0], "maps": cases[ci][1], "spec": spec_any,
-                        "entry_point": ep, "keep_undefined": ku, "ignore_invalid_additional": ign,
+                        "entry_point": ep, "keep_undefined": ku, "direct_trusted_mapping": tr,
+                        "ignore_invalid_additional": ign,
                         "observed": repr(o), "python": python_src(cases[ci][0], cases[ci][1], spec_any)})
         elif dm:
             rep.obligation("correspondence:deser-state:explained-by-violation", True,
